@@ -324,6 +324,17 @@ func c19Header(p *Prog, r *Report, fn *ssa.Function, mc *ssa.MakeClosure, ret *s
 		r.Undecided("C19.R2", what, "-", "cannot resolve the function bound to request.header.<name>")
 		return
 	}
+	// a method value (`ExtractorFunc(headerSource(name).extract)`) is a synthetic bound-method wrapper whose
+	// receiver carries the configured name: the method itself is the extractor
+	reqParam := 0
+	if fn.Synthetic != "" {
+		for _, c := range Calls(fn) {
+			if g := c.Common().StaticCallee(); g != nil && p.InModule(g) && g.Blocks != nil && g.Signature.Recv() != nil {
+				fn = g
+				reqParam = 1
+			}
+		}
+	}
 	r.Fn(FName(fn))
 	what += " " + FName(fn)
 	// the header name handed to the constructor is TrimPrefix(variable, "request.header.")
@@ -369,10 +380,13 @@ func c19Header(p *Prog, r *Report, fn *ssa.Function, mc *ssa.MakeClosure, ret *s
 			hv := stripConv(c.Common().Args[0])
 			if u, oku := hv.(*ssa.UnOp); oku && u.Op == token.MUL {
 				_, f, base, okf := fieldOf(u.X)
-				if okf && f == "Header" && base == ssa.Value(fn.Params[0]) {
+				if okf && f == "Header" && reqParam < len(fn.Params) && base == ssa.Value(fn.Params[reqParam]) {
 					a := stripConv(c.Common().Args[1])
 					if _, isFV := a.(*ssa.FreeVar); isFV {
 						ok = true
+					}
+					if reqParam == 1 && a == ssa.Value(fn.Params[0]) {
+						ok = true // the receiver of the bound method is the configured name
 					}
 					if u2, ok2 := a.(*ssa.UnOp); ok2 {
 						if _, isFV := u2.X.(*ssa.FreeVar); isFV {
